@@ -40,6 +40,7 @@ LEVEL = {
                    "temporaries): those need execution with weak references.",
     "technique": "static analysis: growing-container analysis with a checked window table",
 }
+LEVEL["decided"] += " (R20.5) applies to every function that is handed an iterable and also covers the library's own collecting functions; (R20.7) no stored exception instance is raised (a re-raised instance accumulates one traceback entry and frame per raise)."
 
 STREAMING = c01.PASS_THROUGH + c01.TRANSFORMING + [
     "builtins.all", "builtins.any", "builtins.sum", "builtins._min_max", "functools.reduce", "heapq._largest",
